@@ -170,7 +170,10 @@ func TestExhaustiveSmallQueues(t *testing.T) {
 // every small start container, followed by every read operation.
 func TestExhaustivePutThenRead(t *testing.T) {
 	ops := exReadOps()
-	nums := []uint64{0, 1, 2, 127, 128, 255, 256, 16383, 16384, 1<<32 - 1, 1 << 32, 1<<63 - 1, 1 << 63, ^uint64(0)}
+	nums := []uint64{0, 1, 2, 127, 128, 255, 256, 16383, 16384, 1<<63 - 1, 1 << 63, ^uint64(0)}
+	if allocBounded {
+		nums = append(nums, 1<<32-1, 1<<32, 1<<48) // see allocBounded: as block lengths these kill an unfixed container
+	}
 	datas := [][]byte{nil, {}, {0x00}, {0x01}, {0x80}, {0x02, 0xff}, pattern(127, 1), pattern(128, 1)}
 	var puts []op
 	for _, d := range datas {
@@ -256,11 +259,11 @@ func TestRegReplaceAfterPrepend(t *testing.T) {
 }
 
 // A request for far more than is held made Peek allocate the requested
-// length: makeslice panic for >= 2^48, fatal out-of-memory below that.
+// length: makeslice panic above 2^48, fatal out-of-memory up to 2^48.
 func TestRegHugeRequest(t *testing.T) {
-	reqs := []int{1 << 48, 1 << 62, math.MaxInt}
+	reqs := []int{1 << 49, 1 << 62, math.MaxInt}
 	if allocBounded {
-		reqs = append(reqs, 1<<31, 1<<40)
+		reqs = append(reqs, 1<<31, 1<<40, 1<<48)
 	}
 	for _, n := range reqs {
 		for _, k := range []opKind{opGet, opGetMax, opPeek, opGetAsContainer, opPeekContainer} {
@@ -268,9 +271,9 @@ func TestRegHugeRequest(t *testing.T) {
 			script(t, op{kind: opNew, mode: newOne, data: []byte{1}}, op{kind: k, n: n})
 		}
 	}
-	lens := []uint64{1 << 48, 1<<63 - 1}
+	lens := []uint64{1 << 49, 1<<63 - 1}
 	if allocBounded {
-		lens = append(lens, 1<<31, 1<<40)
+		lens = append(lens, 1<<31, 1<<40, 1<<48)
 	}
 	for _, l := range lens {
 		for _, k := range []opKind{opGetNextBlock, opGetNextBlockAsContainer} {
